@@ -188,9 +188,14 @@ impl Prop {
 fn knobs_for(prop: Prop, sub: u64, tier: Tier, rng: &mut Rng) -> Knobs {
     let mut k = Knobs::base();
     if tier == Tier::Thorough {
+        // deeper, longer, wider: not just more of the same
         k.max_depth = 4;
         k.max_rows = 600;
         k.max_steps = 700;
+        k.max_loop = 6;
+        k.block_len = (1, 6);
+        k.expr_depth = 4;
+        k.n_in = (k.n_in.0, k.n_in.1 + 2);
         if rng.chance(1, 20) {
             k.max_depth = 5;
             k.max_rows = 1500;
@@ -307,7 +312,7 @@ fn knobs_for(prop: Prop, sub: u64, tier: Tier, rng: &mut Rng) -> Knobs {
         Prop::C05 => {
             k.w_in_x = 5;
             k.w_in_c = 5;
-            k.max_x = 4;
+            k.max_x = if tier == Tier::Thorough { 6 } else { 4 };
             k.max_c = 3;
             k.n_in = (1, 5);
             k.w_in_bits = 2;
